@@ -62,15 +62,6 @@ def AppManifest.vals (m : AppManifest) : List Val :=
 
 def AppManifest.fits (m : AppManifest) : Bool := m.vals.all Val.fits
 
-/-! ### from the file to the answers -/
-
-/-- the printer (`AXMLPrinter(data).get_xml_obj()`, C26) followed by `_apk_analysis`: what `APK.__init__` does with the bytes of
-    AndroidManifest.xml once apkInspector has read them from the archive (the composition the driver `drv_C31` runs) -/
-def analyseFile (opq : Nat → Nat → Str) (b : Bytes) : Except String Analysis :=
-  match printAxml opq b with
-  | .error e => .error e
-  | .ok (valid, t) => .ok (analyse (if valid then t else none))
-
 /-! ### a canonical encoding choice (for examples): attribute names first, with their resource ids -/
 
 mutual
@@ -100,7 +91,25 @@ def attrResId : AName → Nat
   | .targetActivity => 0x1010202
 
 /-- pool = the android attribute names, then every string of the document; resource map = the ids of those names -/
-def canonEnc (utf8 wide : Bool) (m : AppManifest) : Enc :=
-  ⟨utf8, wide, allANames.map AName.str ++ stringsOf (docOf 0 m), some (allANames.map attrResId)⟩
+def canonEnc (utf8 wide : Bool) (d : SNode) : Enc :=
+  ⟨utf8, wide, allANames.map AName.str ++ stringsOf d, some (allANames.map attrResId)⟩
+
+/-! ### manifests that can be written as binary XML -/
+
+/-- a string attribute value is an XML string -/
+def legalStr (s : Str) : Bool := decide (LegalValue s)
+
+def Val.legal : Val → Bool
+  | .str s => legalStr s
+  | _ => true
+
+/-- every string value of the manifest is a string of XML characters -/
+def AppManifest.legal (m : AppManifest) : Bool :=
+  legalStr m.package && m.versionCode.all Val.legal && m.versionName.all legalStr &&
+  m.usesSdk.all (fun s => s.vals.all Val.legal) &&
+  m.permissions.all (fun p => legalStr p.name && p.maxSdk.all Val.legal) && m.features.all legalStr &&
+  m.activities.all (fun a => legalStr a.name && a.enabled.all Val.legal && a.target.all legalStr &&
+    a.filters.all fun f => f.actions.all legalStr && f.categories.all legalStr) &&
+  m.services.all legalStr && m.receivers.all legalStr && m.providers.all legalStr && m.libraries.all legalStr
 
 end AgVerif.Spec.Manifest
